@@ -189,7 +189,17 @@ def run(ctx):
                         srcs.append(("?",))
         else:
             srcs.append(a0)
+        expanded = []
         for s in srcs:
+            if s[0] == "multi":
+                for d in rv.whole_defs(s[1]):
+                    if d[0] == "stmt":
+                        expanded.append(strip_refs(canon(rv, rv.origin_rv(d[3]["rv"], d[1]))))
+                    else:
+                        expanded.append(("?",))
+            else:
+                expanded.append(s)
+        for s in expanded:
             ok = False
             if s[0] == "subslice" and strip_refs(s[1]) == ("param", 1) and s[2] >= 1 and s[4] and s[3] == 0:
                 ok = True
@@ -205,4 +215,185 @@ def run(ctx):
     res.explanation = ("CANON: the kinds parameter is only copied; the copy is sorted by the injective rank `order`, deduplicated, tested for emptiness (fallback constant) and handed to description_rec, nothing else touches it — "
                        "so description_rec's argument is a function of the set. DET: the helpers read no statics and call nothing outside std. NAMES: eight pairwise distinct descriptions, Float = 'a number'. "
                        "PROGRESS: every recursive call passes a strict suffix, so every element of the canonical list is visited once.")
+    return res
+
+
+# ---------------------------------------------------------------------------------------------
+# C17.TABLE — decision table of description_rec's slice patterns, extracted by a symbolic walk
+# (length interval + possible variants of the first elements) and compared, on the 256 canonical
+# (rank-sorted, duplicate-free) lists, with the table the statement prescribes.
+RANK = ["Null", "Boolean", "Integer", "NegativeInteger", "Float", "String", "Sequence", "Map"]
+
+
+def extract_rec_table(rv):
+    from analysis import strip_refs
+    from loc import canon, call_name
+    leaves = []
+    INF = 99
+
+    def walk(bb, lo, hi, elems, depth, env=None):
+        if lo > hi or depth > 80:
+            return
+        env = dict(env or {})
+        blk = rv.blocks[bb]
+        # bindings made on this path (`rest @ ..` of or-patterns are assigned in several sub-branches)
+        for st in blk["stmts"]:
+            if st["k"] == "assign" and not st["place"]["p"]:
+                r0 = st["rv"]
+                if r0["k"] == "ref" and r0["place"]["l"] == 1 and len(r0["place"]["p"]) == 2 and r0["place"]["p"][1]["k"] == "subslice":
+                    e = r0["place"]["p"][1]
+                    if e["from_end"] and e["to"] == 0:
+                        env[st["place"]["l"]] = e["from"]
+                elif r0["k"] == "ref" and len(r0["place"]["p"]) == 1 and r0["place"]["p"][0]["k"] == "deref" and r0["place"]["l"] in env:
+                    env[st["place"]["l"]] = env[r0["place"]["l"]]
+                elif r0["k"] == "use" and r0["op"]["k"] in ("copy", "move") and not r0["op"]["place"]["p"] and r0["op"]["place"]["l"] in env:
+                    env[st["place"]["l"]] = env[r0["op"]["place"]["l"]]
+        # leaf: `(msg_part, rest) = ..` tuple assignment
+        for st in blk["stmts"]:
+            if st["k"] == "assign" and st["rv"]["k"] == "agg" and st["rv"]["ak"] == "tuple" and len(st["rv"]["ops"]) == 2 and not st["place"]["p"]:
+                m = canon(rv, rv.origin(st["rv"]["ops"][0]))
+                r = strip_refs(canon(rv, rv.origin(st["rv"]["ops"][1])))
+                msg = None
+                if m[0] == "call" and call_name(rv, m) == "std::string::String::new":
+                    msg = ("const", "")
+                elif m[0] == "call" and (call_name(rv, m) or "").endswith("to_owned") and m[3]:
+                    a = strip_refs(m[3][0])
+                    if a[0] == "const":
+                        msg = ("const", a[2])
+                    elif a[0] == "call" and rv.callee(a[1]).path.endswith("single_description"):
+                        e = strip_refs(a[3][0])
+                        if e[0] == "constindex" and not e[3]:
+                            msg = ("single", e[2])
+                rest = None
+                op1 = st["rv"]["ops"][1]
+                if op1["k"] in ("copy", "move") and not op1["place"]["p"] and op1["place"]["l"] in env:
+                    rest = env[op1["place"]["l"]]
+                elif r[0] == "subslice" and r[4] and r[3] == 0:
+                    rest = r[2]
+                elif r[0] == "agg" and r[1] == "array" and not r[2]:
+                    rest = "all"
+                leaves.append({"lo": lo, "hi": hi, "elems": dict(elems), "msg": msg, "rest": rest})
+                return
+        t = blk["term"]
+        if t["k"] == "switch":
+            info = rv.switch_info(bb)
+            if info["kind"] == "discr" and info["place"] is not None:
+                p = info["place"]["p"]
+                if len(p) == 2 and p[0]["k"] == "deref" and p[1]["k"] == "constindex" and not p[1]["from_end"] and info["place"]["l"] == 1:
+                    i = p[1]["offset"]
+                    cur = elems.get(i, set(RANK))
+                    used = set()
+                    for lb, tgt in info["edges"]:
+                        if lb is None:
+                            continue
+                        used.add(lb)
+                        if lb in cur:
+                            e2 = dict(elems)
+                            e2[i] = {lb}
+                            walk(tgt, max(lo, p[1]["min_length"]), hi, e2, depth + 1, env)
+                    rest_set = cur - used
+                    for lb, tgt in info["edges"]:
+                        if lb is None and rest_set and tgt not in rv.unreach:
+                            e2 = dict(elems)
+                            e2[i] = rest_set
+                            walk(tgt, lo, hi, e2, depth + 1, env)
+                    return
+            if info["kind"] == "bool":
+                src = info.get("src")
+                if src is not None and src["k"] == "binop":
+                    a = strip_refs(canon(rv, rv.origin(src["a"])))
+                    b = strip_refs(canon(rv, rv.origin(src["b"])))
+                    if a[0] == "unop" and a[1] == "PtrMetadata" and b[0] == "const":
+                        c = b[2]
+                        tt, ft = rv.edge_target(info, True), rv.edge_target(info, False)
+                        op = src["op"]
+                        if op == "Eq":
+                            walk(tt, max(lo, c), min(hi, c), elems, depth + 1, env)
+                            if lo < c:
+                                walk(ft, lo, min(hi, c - 1), elems, depth + 1, env)
+                            if hi > c:
+                                walk(ft, max(lo, c + 1), hi, elems, depth + 1, env)
+                        elif op == "Ge":
+                            walk(tt, max(lo, c), hi, elems, depth + 1, env)
+                            walk(ft, lo, min(hi, c - 1), elems, depth + 1, env)
+                        elif op == "Lt":
+                            walk(tt, lo, min(hi, c - 1), elems, depth + 1, env)
+                            walk(ft, max(lo, c), hi, elems, depth + 1, env)
+                        else:
+                            leaves.append({"lo": lo, "hi": hi, "elems": dict(elems), "msg": None, "rest": None})
+                        return
+            leaves.append({"lo": lo, "hi": hi, "elems": dict(elems), "msg": None, "rest": None})
+            return
+        for s in rv.succ[bb]:
+            walk(s, lo, hi, elems, depth + 1, env)
+    walk(0, 0, INF, {}, 0)
+    return leaves
+
+
+def expected_row(lst):
+    if not lst:
+        return ("const", ""), "all"
+    if lst[:3] == ["Integer", "NegativeInteger", "Float"]:
+        return ("const", "a number"), 3
+    if lst[:2] in (["Integer", "Float"], ["NegativeInteger", "Float"]):
+        return ("const", "a number"), 2
+    if lst[:2] == ["Integer", "NegativeInteger"]:
+        return ("const", "an integer"), 2
+    return ("single", 0), 1
+
+
+def table_rule(ctx, res):
+    from lin import Finding
+    crate = ctx.libcrate("deserr")
+    rec = body(crate, BASE + "::description_rec")
+    if rec is None:
+        res.add("C17.TABLE", 1, [Finding("C17.TABLE", "description_rec", "not found", "")])
+        return
+    rv = View(rec)
+    leaves = extract_rec_table(rv)
+    fs = []
+    n = 0
+    bad = []
+    import itertools
+    for k in range(0, 9):
+        for combo in itertools.combinations(RANK, k):
+            lst = list(combo)   # canonical: rank order, no duplicates
+            n += 1
+            hits = []
+            for lf in leaves:
+                if not (lf["lo"] <= len(lst) <= lf["hi"]):
+                    continue
+                if all(i < len(lst) and lst[i] in s for i, s in lf["elems"].items()):
+                    hits.append(lf)
+            want_msg, want_rest = expected_row(lst)
+            if len(hits) != 1:
+                bad.append((lst, "matched by %d rows of the extracted table" % len(hits)))
+                continue
+            h = hits[0]
+            got_rest = h["rest"]
+            if got_rest == "all":
+                got_rest = "all" if not lst or len(lst) == 1 else "ALL"
+            wr = want_rest
+            if wr != "all" and wr == len(lst):
+                pass
+            ok_rest = (got_rest == want_rest) or (h["rest"] == "all" and want_rest == len(lst)) or (h["rest"] == len(lst) == want_rest)
+            if h["msg"] != want_msg or not ok_rest:
+                bad.append((lst, "described by %s consuming %s, the statement prescribes %s consuming %s" % (h["msg"], h["rest"], want_msg, want_rest)))
+    for lst, why in bad[:6]:
+        fs.append(Finding("C17.TABLE", rec.path, "kind set %s is %s" % (lst, why), rec.span))
+    res.add("C17.TABLE", n, fs)
+    res.samples.append({"description_rec_table": [{"len": (lf["lo"], lf["hi"] if lf["hi"] < 99 else "inf"), "first_elements": {str(i): sorted(s) for i, s in lf["elems"].items() if len(s) < 8},
+                                                    "phrase": lf["msg"], "rest_from": lf["rest"]} for lf in leaves][:12]})
+
+
+_run_inner = run
+
+
+def run(ctx):  # noqa: F811
+    res = _run_inner(ctx)
+    table_rule(ctx, res)
+    res.assumptions = [a.replace("the composition of the phrase ('a number' / 'an integer' merging, punctuation) is run-time string building and is not decided",
+                                 "the merging table ('a number' / 'an integer' / single names, and how many elements each step consumes) is decided by C17.TABLE; only the joining punctuation (', ', ' or ', ', or ') is run-time string building and is not decided") for a in res.assumptions]
+    res.explanation += (" TABLE: the decision table of description_rec's slice patterns is extracted by a symbolic walk (length interval, variant sets of the first elements) and must give, "
+                        "for each of the 256 canonical lists, exactly the phrase and the number of consumed kinds the statement prescribes ([Int,NegInt,Float] / [Int,Float] / [NegInt,Float] -> 'a number'; [Int,NegInt] -> 'an integer'; else the single name).")
     return res
